@@ -220,6 +220,14 @@ def assignable (t base : Ty) : Bool :=
    | .simple 3, .simple 4 => true        -- a BOOLEAN value where LOGICAL is declared
    | _, _ => false)
 
+/-- ISO 10303-11 12.2.3 `x IN agg`: some element of the aggregate value has the value of `x` (value equality; an
+indeterminate ARRAY element equals nothing) -/
+def member (d : Decl) : Value → Val → Bool
+  | .array a, x => decide (some x.key ∈ ((indices d.lo (d.hi.getD d.lo)).map a).map (Option.map Val.key))
+  | .list l, x => decide (x.key ∈ l.map Val.key)
+  | .bag l, x => decide (x.key ∈ l.map Val.key)
+  | .set l, x => decide (x.key ∈ l.map Val.key)
+
 /-- The EXPRESS built-in functions over aggregates (ISO 10303-11 15.10 HIBOUND, 15.11 HIINDEX, 15.16 LOBOUND, 15.17
 LOINDEX, 15.24 SIZEOF, 15.29 VALUE_UNIQUE) -/
 inductive BuiltinFn | sizeof | hiindex | loindex | hibound | lobound | valueUnique
